@@ -26,11 +26,12 @@ CLAIMED: dict[str, tuple[str, str, str, str]] = {
     "C06": (
         "Lean 4 proof over the white-box marker model (hand recogniser of markers.lark, SingleMarker.__init__ rewriting, validate) against a formalised PEP 508 reference semantics + differential correspondence (model vs poetry-core raw tree and parse_marker; spec vs packaging)",
         "Machine-checked: the and/or/parenthesis structure of `_compact_markers` (flattening and de-duplication included) commutes with lazy "
-        "`validate` for ALL syntax trees, errors and evaluation order included; leaf agreement with the reference for string variables ==/!= and "
-        "extra ==/!= for all strings; their composition for every marker text over those leaves; version variables at token level for "
-        "==,!=,<,<=,>,>= on final releases of any length; source-tie theorems (regexes, aliases, variable tables equal the extracted source "
-        "constants). Open, stated as `*_full_statement` and covered by the correspondence: in/not in lists, reversed operands, text->token for "
-        "version literals, ~=. Every run compares raw-tree structure/text/truth vectors model vs code, the simplified parse_marker vs the raw "
+        "`validate` for ALL syntax trees, errors and evaluation order included; leaf agreement with the reference on EVERY leaf shape of the "
+        "domain for all strings and numbers: string variables with ==, !=, in/not in (by token) and reversed substring operands; extra; "
+        "python_version/python_full_version with ==,!=,<,<=,>,>=,~= and in/not in on literal TEXTS (digit round trip and the X.Y.0 padding "
+        "included); composition for every marker text of the domain (`parse_eval_agree_full`); source-tie theorems (regexes, aliases, variable "
+        "tables equal the extracted source constants). Counterexample theorems for the two shapes outside the domain (two-component "
+        "python_full_version lists and ~=). Open: coherence of `_compact_markers` for every parsed text (proved on the domain). Every run compares raw-tree structure/text/truth vectors model vs code, the simplified parse_marker vs the raw "
         "model, the Lean spec vs packaging, and evaluates the property oracle (parse_marker(t).validate(E) vs reference) on the domain.",
         TB + "lark LALR engine and Python re trusted (recognisers tied by the parse stream); reference = packaging 26.3 with the token reading of in/not in and set-valued extras stated in the property; two known findings (whitespace in string literals; two-component tokens in python_full_version lists).",
         "DESIGN.md §4 C06",
@@ -152,9 +153,10 @@ CLAIMED: dict[str, tuple[str, str, str, str]] = {
         "Machine-checked proof that, for every operator of the property and every well-formed literal/candidate, membership in the "
         "model of the parsed constraint equals the formalised reference semantics (Spec/Specifier.lean, the range-based "
         "packaging 26 algorithm) on candidates that are regular for the literal (other release, or equal), incl. the exclusive "
-        "comparison rules, wildcards, two-clause sets, and the documented ranges of ^, ~, bare versions and ||. Partial: sets of "
-        "more than two clauses, ~=V on V's own release and !=V.* are stated (`*_full_statement`) and covered by the correspondence "
-        "only. Every run compares model vs real parse_constraint().allows() and spec vs packaging on ~200k pairs.",
+        "comparison rules, wildcards (==V.* and !=V.* on every candidate, the latter through the real union `allows`), every operator but "
+        "!= with final literals on EVERY candidate incl. ~=, comparison sets of any length, and the documented ranges of ^, ~, bare versions "
+        "and ||. Partial: sets containing ~=, != or wildcard clauses and sets on candidates of a literal's own release are stated "
+        "(`*_full_statement`) and covered by the correspondence only. Every run compares model vs real parse_constraint().allows() and spec vs packaging on ~200k pairs.",
         TB + "Reference = packaging 26.3 in a subprocess. Three in-guard divergence classes are known findings (by design of the range algebra).",
         "DESIGN.md §4 C04",
     ),
@@ -163,8 +165,10 @@ CLAIMED: dict[str, tuple[str, str, str, str]] = {
         "Machine-checked proof, over a linear-order instance of the version key, that `allows` of the real algorithm is plain "
         "interval membership on regular probes and that member-level intersect, union (single-result case), difference, "
         "`VersionUnion.of` (membership preservation) and the intersect merge walk are defined and exact; empty/universal laws; "
-        "commutativity. Partial (named `_partial`, full statements kept as `def …_full_statement`): union/difference need `Tidy` "
-        "operands, the difference merge walks are covered by correspondence only. The model mirrors the code branch by branch and "
+        "commutativity; `VersionUnion.of` total, sorted and separated on range members. In the regular setting (bounds mutually regular, none a "
+        "local build) intersect, union and difference of ARBITRARY constraints, unions included, are proved defined, closed and exact with "
+        "the real `allows` (`C05_regular_partial`), incl. the difference merge walks and `_inverted`. Outside that setting the union-level "
+        "results stay `_partial` (full statements kept as `def …_full_statement`). The model mirrors the code branch by branch and "
         "is compared structurally (text, dump, flags, membership on regular AND irregular probes) on every run.",
         TB + "list.sort modelled as stable insertion sort; one known finding (Version ∩ range with local lower bound) proved as a counterexample theorem.",
         "DESIGN.md §4 C05",
@@ -184,8 +188,9 @@ CLAIMED: dict[str, tuple[str, str, str, str]] = {
         "Lean 4 theorems: soundness of allows_all / allows_any / is_empty / is_any on the constraint model + structural differential correspondence",
         "Machine-checked proof that a 'yes' of allows_all and a 'no' of allows_any are never wrong on regular probes (member level and "
         "union level incl. the two merge walks), that allows_any agrees with non-emptiness of the intersection for inhabited members, "
-        "that empty/universal constraints admit nothing/everything and that every well-formed member allows all (and, if inhabited, any) of "
-        "itself. The uninhabited-range case is a proved counterexample. Same correspondence stream as C05 with the predicates as columns.",
+        "that empty/universal constraints admit nothing/everything; the self laws are unconditional for every well-formed constraint; in the "
+        "regular setting all answers (unions included) never raise, are sound against the real `allows`, and allows_any = non-empty "
+        "intersection. The uninhabited-range case is a proved counterexample. Same correspondence stream as C05 with the predicates as columns.",
         TB + "As C05.",
         "DESIGN.md §4 C12",
     ),
